@@ -238,7 +238,7 @@ func (e *Exec) execInstr(st *State, fr *Frame, instr ssa.Instruction) []stepOut 
 		return one(st, fr)
 
 	case *ssa.Select:
-		panic(unsupported("select statement at %s", e.pos(instr)))
+		return e.selectInstr(st, fr, x)
 	}
 	panic(unsupported("instruction %T at %s", instr, e.pos(instr)))
 }
@@ -1073,6 +1073,7 @@ func (e *Exec) lookup(st *State, fr *Frame, x *ssa.Lookup) []stepOut {
 		return append(outs, stepOut{st: st, fr: fr})
 	}
 	m := base.(MapV)
+	e.noteMapAccess(st, m, false, x)
 	key := e.val(st, fr, x.Index)
 	vt := x.X.Type().Underlying().(*types.Map).Elem()
 	var res Value = e.zero(vt)
@@ -1170,6 +1171,7 @@ func (e *Exec) mapUpdate(st *State, fr *Frame, x *ssa.MapUpdate) []stepOut {
 
 // mapStore performs m[key]=v, forking when key equality with existing entries is symbolic.
 func (e *Exec) mapStore(st *State, fr *Frame, m MapV, key, v Value) []stepOut {
+	e.noteMapAccess(st, m, true, nil)
 	mo := st.heap[m.Obj].(MapObj)
 	var outs []stepOut
 	for i := range mo.Keys {
@@ -1210,6 +1212,7 @@ func (e *Exec) mapDelete(st *State, fr *Frame, m MapV, key Value) []stepOut {
 	if m.Obj < 0 {
 		return one(st, fr)
 	}
+	e.noteMapAccess(st, m, true, nil)
 	mo := st.heap[m.Obj].(MapObj)
 	var outs []stepOut
 	for i := range mo.Keys {
@@ -1281,4 +1284,74 @@ func (e *Exec) next(st *State, fr *Frame, x *ssa.Next) []stepOut {
 	fr.locals[x] = TupleV{BoolV{tc.True()}, mo.Keys[it.Pos], mo.Vals[it.Pos]}
 	fr.locals[x.Iter] = MapIter{Obj: it.Obj, Pos: it.Pos + 1}
 	return one(st, fr)
+}
+
+// noteMapAccess records accesses to maps that existed before the running goroutine was started (shared with whoever
+// started it) made while no lock is held; vSharedMapRaces counts the maps touched that way by two goroutines, at least
+// one of them writing - Go's runtime aborts the whole process on such an access pair.
+func (e *Exec) noteMapAccess(st *State, m MapV, write bool, at ssa.Instruction) {
+	if e.inSpawned == 0 || st.locks > 0 || m.Obj < 0 || m.Obj > e.spawnWatermark {
+		return
+	}
+	where := ""
+	if len(e.stack) > 0 {
+		where = e.stack[len(e.stack)-1]
+	}
+	for _, a := range st.unlockedMapAccess {
+		if a.g == e.spawnSeq && a.obj == m.Obj && a.write == write {
+			return
+		}
+	}
+	st.unlockedMapAccess = append(st.unlockedMapAccess, mapAccess{g: e.spawnSeq, obj: m.Obj, write: write, where: where})
+}
+
+// selectInstr: receive cases only. A case is ready when its channel has a queued value; a nil channel is never
+// ready. Non-blocking select falls to default; a blocking select with nothing ready parks (inside vRunSpawned).
+func (e *Exec) selectInstr(st *State, fr *Frame, x *ssa.Select) []stepOut {
+	tc := e.tc
+	for i, sc := range x.States {
+		if sc.Dir != types.RecvOnly {
+			panic(unsupported("select with a send case at %s", e.pos(x)))
+		}
+		c, ok := e.val(st, fr, sc.Chan).(ChanV)
+		if !ok {
+			panic(unsupported("select on unknown channel value at %s", e.pos(x)))
+		}
+		if c.Obj < 0 {
+			continue
+		}
+		q, _ := st.heap[c.Obj].(ArrayV)
+		if len(q.E) == 0 {
+			continue
+		}
+		st.heap[c.Obj] = ArrayV{append([]Value(nil), q.E[1:]...)}
+		res := []Value{BV{tc.Int(int64(i))}, BoolV{tc.True()}}
+		for j, sc2 := range x.States {
+			if sc2.Dir != types.RecvOnly {
+				continue
+			}
+			if j == i {
+				res = append(res, q.E[0])
+			} else {
+				res = append(res, e.zero(sc2.Chan.Type().Underlying().(*types.Chan).Elem()))
+			}
+		}
+		fr.locals[x] = TupleV(res)
+		return one(st, fr)
+	}
+	if !x.Blocking {
+		res := []Value{BV{tc.Int(-1)}, BoolV{tc.False()}}
+		for _, sc := range x.States {
+			if sc.Dir == types.RecvOnly {
+				res = append(res, e.zero(sc.Chan.Type().Underlying().(*types.Chan).Elem()))
+			}
+		}
+		fr.locals[x] = TupleV(res)
+		return one(st, fr)
+	}
+	if e.inSpawned > 0 {
+		st.parked = true
+		return []stepOut{{st: st, fr: fr, panicked: true}}
+	}
+	panic(unsupported("blocking select with no ready case at %s", e.pos(x)))
 }
